@@ -116,6 +116,7 @@ def cases(draw, isa, archs, kernels):
              "   "]))])
     return {"isa": isa, "arch": draw(st.sampled_from(archs)), "kernel": name, "body": body, "pro": pro, "epi": epi,
             "order": draw(st.sampled_from([0, 0, 1, 2, 3, 5])), "noarch": noarch,
+            "holes": draw(st.lists(st.integers(0, 20), max_size=3)) if draw(st.integers(0, 2)) == 0 else [],
             "style": style, "blank": draw(st.sampled_from([0, 0, 1, 3, 996, 1200, 4900])),
             "cuts": cuts, "seps": seps, "noise": noise, "fixed": draw(st.booleans())}
 
@@ -204,12 +205,29 @@ def check_case(case):
             raise Violation("variants:%s:%s" % (nm, isa), "analysis of the %s variant differs from the marked file "
                             "(%s on %s)" % (nm, case["kernel"], case["arch"]),
                             core.jsonable([diff, other[1]]), core.jsonable(a_marked[1]))
+    # a selection with holes: --lines naming a non-contiguous subset of the body is the kernel made of exactly
+    # those lines (the lines in the holes take no part in the analysis)
+    holes = case.get("holes") or []
+    gap_cl = []
+    if holes and len(case["body"]) >= 3:
+        keep = [i for i in range(len(case["body"])) if i not in {1 + h % (len(case["body"]) - 2) for h in holes}]
+        if len(keep) < len(case["body"]):
+            sel_nos = [body_nos[i] for i in keep]
+            a_gap = analyse(base + ["--lines", ",".join(str(x) for x in sel_nos)], code, "--lines with holes")
+            a_sel = analyse(base, "\n".join(case["body"][i] for i in keep) + "\n", "selected lines only")
+            if a_gap != a_sel:
+                diff = [(x, y) for x, y in zip(a_sel[0], a_gap[0]) if x != y][:2]
+                raise Violation("variants:lines-with-holes:" + isa, "analysis of --lines %s differs from the analysis "
+                                "of a file containing only those lines (%s on %s)" % (
+                                    ",".join(str(x) for x in sel_nos), case["kernel"], case["arch"]),
+                                core.jsonable([diff, a_gap[1]]), core.jsonable(a_sel[1]))
+            gap_cl = ["lines-with-holes"]
     dec = lambda side: any(d in DECOYS[isa] for d in side)
     mixed = any("-" in p or ":" in p for p in pieces) and any(p.isdigit() for p in pieces)
     inner_noise = any(0 < pos < len(case["body"]) for pos, _ in case["noise"])
     body_decoy = any(l in [x for d in DECOYS[isa] for x in d.split("\n")] for l in case["body"])
     nt = (dec(case["pro"]) and dec(case["epi"])) or mixed or inner_noise or body_decoy
-    cl = [isa, "style:" + case["style"], "arch:" + case["arch"]]
+    cl = [isa, "style:" + case["style"], "arch:" + case["arch"]] + gap_cl
     if body_nos[-1] >= 1000:
         cl.append("line-numbers>=1000")
     if dec(case["pro"]) or dec(case["epi"]):
